@@ -333,9 +333,18 @@ def merge_semantics(fi):
 
     pm = parent_map(fi.node)
     for aug in ast.walk(fi.node):
-        if not (isinstance(aug, ast.AugAssign) and isinstance(aug.op, ast.Add) and is_len(aug.target) and is_len(aug.value)):
+        if isinstance(aug, ast.AugAssign) and isinstance(aug.op, ast.Add) and is_len(aug.target) and is_len(aug.value):
+            child, removed = norm(aug.target), norm(aug.value)
+        elif isinstance(aug, ast.Assign) and len(aug.targets) == 1 and is_len(aug.targets[0]) and any(isinstance(x, ast.BinOp) and isinstance(x.op, ast.Add) for x in ast.walk(aug.value)):
+            # the sum written out: child.length = removed.length + child.length [or ...]
+            lens = {norm(x) for x in ast.walk(aug.value) if is_len(x)}
+            child = norm(aug.targets[0])
+            others = lens - {child}
+            if child not in lens or len(others) != 1:
+                continue
+            removed = others.pop()
+        else:
             continue
-        child, removed = norm(aug.target), norm(aug.value)
         # the outermost enclosing `if` whose test is decidable from the two None-nesses
         frag = None
         cur = aug
@@ -421,6 +430,18 @@ def _eval_val(e, env):
         if a is None or b is None:
             raise _TypeErr()
         return a + "+" + b
+    if isinstance(e, ast.BoolOp) and isinstance(e.op, ast.Or):
+        # `x or y`: x when it is a (non-zero) length, otherwise y
+        v = None
+        for sub in e.values:
+            v = _eval_val(sub, env)
+            if v is not None and v != "0":
+                return v
+        return v
+    if isinstance(e, ast.IfExp):
+        return _eval_val(e.body if _eval_test(e.test, env) else e.orelse, env)
+    if is_none(e):
+        return None
     raise _Unknown()
 
 
